@@ -88,7 +88,8 @@ class Degree(Interp):
             return UNK
         r = _add(a, b)
         if r.d is None and a.d is not None and b.d is not None:
-            self.mixed.append(f"alternative paths give {a.show()} and {b.show()} for the same quantity")
+            ctx = getattr(self, "join_ctx", None)
+            self.mixed.append(f"alternative paths{' of `if ' + unparse(ctx)[:60] + '`' if ctx is not None else ''} give {a.show()} and {b.show()} for the same quantity")
         return r
 
     def unbound(self, name, node, env):
